@@ -110,10 +110,22 @@ def body(run: Run, replay):
             allpairs = sorted(set(sel))
         gids, cins, couts, pts = [], [], [], []
         for n_, (ci_, co_) in enumerate(allpairs * (1 if quick else 2)):
-            gids.append(101 + n_)
             cins.append(ci_)
             couts.append(co_)
             pts.append(randpoint(typ[ci_], 8.0))
+        # grids ON the coordinate planes of their own cylindrical / spherical output system (theta or phi = 0, +-90, +-180 exactly):
+        # the rotation by the grid's own angles has its sign changes there
+        special = {2: [(5.0, 180.0, 1.5), (3.0, -180.0, -2.0), (4.0, 0.0, 1.0), (2.5, 90.0, 0.0), (6.0, -90.0, 2.0)],
+                   3: [(5.0, 90.0, 180.0), (3.0, 60.0, -180.0), (4.0, 90.0, 0.0), (2.5, 30.0, 90.0), (6.0, 120.0, -90.0)]}
+        for k in range(1, K + 1):
+            if typ[k] in special:
+                for j_ in range(2 if quick else 5):
+                    cins.append(k)
+                    couts.append(k)
+                    pts.append(np.array(special[typ[k]][(ti + j_ + k) % 5]))
+        # grid ids are NOT in ascending order in the table (tables assembled from several sources)
+        idpool = list(rng.permutation(np.arange(101, 101 + 3 * len(cins)))[: len(cins)])
+        gids = [int(x) for x in idpool]
         cid = lambda k: 10 * k  # noqa
         try:
             uset = n2p.addgrid(None, gids, "b", [cid(k) for k in cins], pts, [cid(k) for k in couts], cr_tab)
